@@ -104,7 +104,7 @@ request that cannot be satisfied leaves the table undisturbed -/
 theorem resize_exact (oracle : Nat → Bool) {t : HT} (n : Nat) (f : Option HashId) (inv : Inv hf t) :
     (resize hf oracle t n f).Spec (fun _ t' => Inv hf t' ∧ List.Perm (nodes t') (nodes t) ∧ t'.size = t.size ∧
       (¬ Satisfiable oracle t n → t' = t)) :=
-  (resize_spec hf oracle n f inv).mono (fun _ _ h => ⟨h.1, h.2.1, h.2.2.1, h.2.2.2.2⟩)
+  (resize_spec hf oracle n f inv).mono (fun _ _ h => ⟨h.1, h.2.1, h.2.2.1, h.2.2.2.2.1⟩)
 
 example : (resize Ex.hf0 Ex.yes Ex.tPending 3 none).Spec (fun _ t' => Inv Ex.hf0 t' ∧
     List.Perm (nodes t') (nodes Ex.tPending) ∧ t'.size = 3 ∧ (¬ Satisfiable Ex.yes Ex.tPending 3 → t' = Ex.tPending)) :=
@@ -125,7 +125,7 @@ theorem shrink_exact (oracle : Nat → Bool) {t : HT} (inv : Inv hf t) :
 fields) and acts on the multisets as the specification says -/
 theorem step_inv {s : Sys} (si : SysInv hf s) (op : Op) (hv : Valid s op) :
     (step hf s op).Spec (fun _ r => SysInv hf r.1 ∧ SpecStep (absOf s) (absOf r.1) op r.2) :=
-  step_refines hf si op hv
+  (step_refines hf si op hv).mono (fun _ _ h => h.1)
 
 /-- **History theorem**: for every history of insert / find / erase / resize /
 rehash / shrink / swap / foreach / foreach_const / clear on two tables from
@@ -136,12 +136,12 @@ ends in a state satisfying the invariant, having answered every operation as
 the multiset specification prescribes. -/
 theorem run_exact (ops : List Op) (hv : ValidFrom hf Sys.init ops) :
     (run hf Sys.init ops).Spec (fun _ r => SysInv hf r.1 ∧ SpecRun (absOf Sys.init) ops r.2 (absOf r.1)) :=
-  run_refines hf ops hv
+  (run_refines hf ops hv).mono (fun _ _ h => h.1)
 
 /-- hence the invariant holds in every reachable state -/
 theorem run_inv (ops : List Op) (hv : ValidFrom hf Sys.init ops) {r : Sys × List Out}
     (h : (run hf Sys.init ops).val = .ok r) : Inv hf r.1.a ∧ Inv hf r.1.b :=
-  let si := ((run_refines hf ops hv).of_ok h).1
+  let si := ((run_refines hf ops hv).of_ok h).1.1
   ⟨si.ia, si.ib⟩
 
 /-- the hypotheses of the history theorem are satisfiable (here: first resize,
